@@ -8,18 +8,22 @@
 package main
 
 import (
-	"regexp"
 	"encoding/json"
 	"fmt"
 	"net/url"
+	"regexp"
 	"runtime"
+	"sort"
 	"strconv"
 	"strings"
 	"sync"
 
 	"github.com/go-faster/yaml"
+	"github.com/ogen-go/ogen"
 	"github.com/ogen-go/ogen/jsonpointer"
 	"github.com/ogen-go/ogen/location"
+	"github.com/ogen-go/ogen/openapi"
+	"github.com/ogen-go/ogen/openapi/parser"
 
 	"verif/internal/vf"
 )
@@ -408,11 +412,162 @@ func judge(doc string, root *yaml.Node, p string) (cl string, k kase, lenientOut
 	return "", k, false, hit
 }
 
+// ---------- references of a document: the parser's resolution of $ref ----------
+
+// docRefs: an OpenAPI document whose schema components nest schemas under members and keywords that
+// are named like other components (owner, items, properties, 0, A ...).  Every pointer to every
+// schema position below components/schemas is the $ref of one request body, in fragment form (plain
+// and percent-encoded).  The parser (its shortcuts for already parsed components included) must hand
+// back the schema that sits at the node RFC 6901 evaluation designates: positions are unique per node,
+// so the position of the resolved schema identifies the node.
+func docRefs(r *vf.Run) {
+	type M = map[string]any
+	obj := func(props M, extra M) M {
+		m := M{"type": "object", "properties": props}
+		for k, v := range extra {
+			m[k] = v
+		}
+		return m
+	}
+	schemas := M{
+		"A": obj(M{"owner": obj(M{"x": M{"type": "integer"}}, nil), "items": M{"type": "string"}, "properties": M{"type": "boolean"}, "A": M{"type": "number"}, "0": M{"type": "string", "maxLength": 1},
+			"a/b": M{"type": "integer", "minimum": 1}, "m~n": M{"type": "integer", "minimum": 2}, "\u00e9": M{"type": "integer", "minimum": 3}, "%": M{"type": "integer", "minimum": 4}, "%25": M{"type": "integer", "minimum": 5}, "a b": M{"type": "integer", "minimum": 6}},
+			M{"additionalProperties": M{"type": "integer", "maximum": 7}}),
+		"owner":                M{"type": "array", "items": obj(M{"items": M{"type": "integer", "maximum": 8}}, nil)},
+		"items":                M{"allOf": []any{obj(M{"a": M{"type": "string", "maxLength": 2}}, nil), obj(M{"0": M{"type": "integer", "maximum": 9}}, nil)}},
+		"0":                    obj(M{"owner": M{"type": "string", "maxLength": 3}}, M{"patternProperties": M{"^x": M{"type": "string", "maxLength": 4}}}),
+		"properties":           M{"oneOf": []any{M{"type": "string", "maxLength": 5}, M{"type": "integer", "maximum": 10}}},
+		"x":                    M{"type": "string", "maxLength": 6},
+		"a":                    M{"type": "boolean"},
+		"additionalProperties": M{"type": "string", "maxLength": 7},
+		"allOf":                M{"type": "integer", "maximum": 11},
+		"oneOf":                M{"anyOf": []any{M{"type": "string", "maxLength": 8}, M{"type": "number", "maximum": 12}}},
+		"1":                    M{"type": "string", "maxLength": 9},
+	}
+	// every schema position below components/schemas, as reference tokens
+	var ptrs [][]string
+	var walk func(s M, at []string)
+	walk = func(s M, at []string) {
+		ptrs = append(ptrs, append([]string{}, at...))
+		for _, kw := range []string{"properties", "patternProperties"} {
+			if ps, ok := s[kw].(M); ok {
+				for name, sub := range ps {
+					walk(sub.(M), append(append([]string{}, at...), kw, name))
+				}
+			}
+		}
+		for _, kw := range []string{"items", "additionalProperties"} {
+			if sub, ok := s[kw].(M); ok {
+				walk(sub, append(append([]string{}, at...), kw))
+			}
+		}
+		for _, kw := range []string{"allOf", "oneOf", "anyOf"} {
+			if l, ok := s[kw].([]any); ok {
+				for i, sub := range l {
+					walk(sub.(M), append(append([]string{}, at...), kw, strconv.Itoa(i)))
+				}
+			}
+		}
+	}
+	for name, s := range schemas {
+		walk(s.(M), []string{"components", "schemas", name})
+	}
+	sortTokens(ptrs)
+	esc := func(tok string) string { return strings.ReplaceAll(strings.ReplaceAll(tok, "~", "~0"), "/", "~1") }
+	type site struct {
+		op, ref, plain string
+	}
+	var sites []site
+	paths := M{}
+	for i, toks := range ptrs {
+		var plain, frag, full strings.Builder
+		for _, t := range toks {
+			e := esc(t)
+			plain.WriteString("/" + e)
+			frag.WriteString("/" + strings.ReplaceAll(url.PathEscape(e), "+", "%2B"))
+			full.WriteString("/")
+			for j := 0; j < len(e); j++ {
+				fmt.Fprintf(&full, "%%%02x", e[j])
+			}
+		}
+		for j, ref := range []string{"#" + frag.String(), "#" + full.String()} {
+			id := fmt.Sprintf("r%dx%d", i, j)
+			sites = append(sites, site{id, ref, plain.String()})
+			paths["/"+id] = M{"post": M{"operationId": id, "requestBody": M{"required": true, "content": M{"application/json": M{"schema": M{"$ref": ref}}}}, "responses": M{"200": M{"description": "ok"}}}}
+		}
+	}
+	doc := M{"openapi": "3.0.3", "info": M{"title": "t", "version": "1"}, "paths": paths, "components": M{"schemas": schemas}}
+	var evals int64
+	for _, spelling := range []string{"json-indented", "json-compact"} {
+		var data []byte
+		if spelling == "json-compact" {
+			data, _ = json.Marshal(doc)
+		} else {
+			data, _ = json.MarshalIndent(doc, "", "  ")
+		}
+		var root yaml.Node
+		if err := yaml.Unmarshal(data, &root); err != nil {
+			vf.Fatal("docRefs document: %v", err)
+		}
+		spec, err := ogen.Parse(data)
+		var api *openapi.API
+		if err == nil {
+			api, err = parser.Parse(spec, parser.Settings{File: location.NewFile("root.json", "root.json", data)})
+		}
+		if err != nil {
+			r.Violation(map[string]string{"class": "document-with-references-below-components-refused", "spelling": spelling}, len(data), map[string]any{"error": err.Error(), "document": string(data)})
+			continue
+		}
+		byID := map[string]*openapi.Operation{}
+		for _, op := range api.Operations {
+			byID[op.OperationID] = op
+		}
+		for _, st := range sites {
+			evals++
+			want, found, _ := refPlain(st.plain, &root)
+			if !found {
+				vf.Fatal("docRefs: the reference evaluator finds no node for %q", st.plain)
+			}
+			op := byID[st.op]
+			var got string
+			if op != nil && op.RequestBody != nil {
+				if m := op.RequestBody.Content["application/json"]; m != nil && m.Schema != nil {
+					if pos, ok := m.Schema.Pointer.Position(); ok {
+						got = fmt.Sprintf("%d:%d", pos.Line, pos.Column)
+					}
+				}
+			}
+			if exp := fmt.Sprintf("%d:%d", want.Line, want.Column); got != exp {
+				r.Violation(map[string]string{"class": "reference-resolved-to-another-node-by-the-parser", "spelling": spelling}, len(st.ref),
+					map[string]any{"reference": st.ref, "pointer": st.plain, "designated_node_at": exp, "resolved_schema_at": got, "document": trunc16(string(data), 3000)})
+			}
+		}
+	}
+	r.Eval(evals)
+	r.NontrivialN(evals)
+	r.Set("document_reference_sites", evals)
+}
+
+func sortTokens(p [][]string) {
+	sort.Slice(p, func(i, j int) bool { return strings.Join(p[i], "\x00") < strings.Join(p[j], "\x00") })
+}
+
+func trunc16(s string, n int) string {
+	if len(s) > n {
+		return s[:n] + "..."
+	}
+	return s
+}
+
 func main() {
 	r := vf.Start("C16", "exploration")
 	if r.Replay != "" {
 		var k kase
 		r.ReplayCase(&k)
+		if k.Doc == "" { // a case of the document-level sub-check: the one document is checked again
+			docRefs(r)
+			r.Finish("")
+		}
 		var root yaml.Node
 		if err := yaml.Unmarshal([]byte(k.Doc), &root); err != nil {
 			vf.Fatal("replay document: %v", err)
@@ -655,13 +810,14 @@ func main() {
 		r.NontrivialN(sweepN)
 		r.Set("index_sweep_pairs", sweepN)
 	}
+	docRefs(r)
 	r.Set("documents", len(docs))
 	r.Set("outside_oracle_lenient_tilde", lenientN)
 	r.Set("url_reference_strings", urlRefs)
 	r.Set("pointers_designating_a_node", designated)
 	r.Assume("oracle: the RFC 6901 evaluator in cmd/c16 (with its own percent-decoder); documents are parsed by go-faster/yaml, the parser ogen itself uses",
 		"a '~' not followed by 0 or 1 is not a pointer under the RFC's ABNF; ogen's lenient resolution of it is outside the oracle and counted (outside_oracle_lenient_tilde)")
-	r.Finish(fmt.Sprintf("documents: all tree shapes of depth <= %d (objects <= 2 members, arrays <= 3) with member names rotated through %d adversarial names under %d rotation steps, in JSON, YAML and plain-key YAML spelling (keys such as 200, 1e3, true, null, 2020-01-01 carry non-string tags), plus all %d sibling pairs of names; pointers: valid pointer to every node in plain / fragment (unescaped, minimal, full upper, full lower percent-encoding) form, every single-character deletion/insertion/substitution over %q for pointers <= %d bytes, and all strings <= %d over that alphabet on every 97th document. distinct = (document, pointer) pair; all are non-trivial (each is compared by node identity with the reference).", depth, len(names), len(steps), len(names)*(len(names)-1)/2, alphabet, editMax, strLen))
+	r.Finish(fmt.Sprintf("documents: all tree shapes of depth <= %d (objects <= 2 members, arrays <= 3) with member names rotated through %d adversarial names under %d rotation steps, in JSON, YAML and plain-key YAML spelling (keys such as 200, 1e3, true, null, 2020-01-01 carry non-string tags), plus all %d sibling pairs of names; pointers: valid pointer to every node in plain / fragment (unescaped, minimal, full upper, full lower percent-encoding) form, every single-character deletion/insertion/substitution over %q for pointers <= %d bytes, and all strings <= %d over that alphabet on every 97th document. Document level: one OpenAPI document whose schema components nest schemas under names of other components; every pointer to every schema position below components/schemas is the $ref of a request body (fragment form, minimal and full percent-encoding) and the schema the parser resolves must sit at the designated node. distinct = (document, pointer) pair; all are non-trivial (each is compared by node identity with the reference).", depth, len(names), len(steps), len(names)*(len(names)-1)/2, alphabet, editMax, strLen))
 }
 
 // reason classifies why the reference has no node although ogen returned one (for known-finding
